@@ -15,7 +15,9 @@ from harness import workerh as H
 
 NT = tier(3, 4)                # tasks in the script
 SIGNUMS = sorted(n for n in (bc.signum(s) for s in bc.TERMSIGS_FULL) if n)
-MAXPOINT = 30 * NT
+MAXPOINT = 36 * (NT - 1)
+KSYN = tier(1, 3)
+SILENT = tier(0, 2)
 
 
 def _protocol(kinds, maxtasks, syn, silence, consumed, mem, want):
@@ -120,14 +122,27 @@ def _protocol(kinds, maxtasks, syn, silence, consumed, mem, want):
 
 
 def _lists_ok(kinds, syn, silence):
-    return (len(kinds) == NT and all(0 <= k <= 3 for k in kinds)
+    # quick: outcomes {return, raise}, only the first answer may be preceded by silent polls
+    return (len(kinds) == NT and all(0 <= k <= KSYN for k in kinds)
             and len(syn) == NT and all(0 <= s <= 1 for s in syn)
-            and len(silence) == NT and all(0 <= s <= 2 for s in silence))
+            and len(silence) == NT and 0 <= silence[0] <= 2 and all(0 <= s <= SILENT for s in silence[1:]))
+
+
+def _kpart(kinds):
+    # NPART is 1 or 9: outcome kinds of the first two tasks.  An unserialisable result (kind 3) is
+    # only scripted for the last task here (paths through it are ~5x slower under the tracer);
+    # h_unpicklable covers it in every position with the other outcomes concrete.
+    return NPART == 1 or (kinds[0] == PART % 3 and kinds[1] == (PART // 3) % 3)
+
+
+def _spart(syn):
+    # NPART is 1 or 4: answers to the first two jobs
+    return NPART == 1 or (syn[0] == PART % 2 and syn[1] == (PART // 2) % 2)
 
 
 def h_protocol(kinds: List[int], maxtasks: int, consumed: int) -> bool:
     """
-    pre: len(kinds) == NT and all(0 <= k <= 3 for k in kinds) and 0 <= maxtasks <= NT and 0 <= consumed <= NT
+    pre: len(kinds) == NT and all(0 <= k <= 3 for k in kinds) and 0 <= maxtasks <= NT and 0 <= consumed <= NT and _kpart(kinds)
     post: _
     """
     try:
@@ -138,7 +153,7 @@ def h_protocol(kinds: List[int], maxtasks: int, consumed: int) -> bool:
 
 def h_protocol_twin(kinds: List[int], maxtasks: int, consumed: int) -> bool:
     """
-    pre: len(kinds) == NT and all(0 <= k <= 3 for k in kinds) and 0 <= maxtasks <= NT and 0 <= consumed <= NT
+    pre: len(kinds) == NT and all(0 <= k <= 3 for k in kinds) and 0 <= maxtasks <= NT and 0 <= consumed <= NT and _kpart(kinds)
     post: _
     """
     try:
@@ -149,7 +164,7 @@ def h_protocol_twin(kinds: List[int], maxtasks: int, consumed: int) -> bool:
 
 def h_synack(kinds: List[int], maxtasks: int, syn: List[int], silence: List[int]) -> bool:
     """
-    pre: _lists_ok(kinds, syn, silence) and 0 <= maxtasks <= NT
+    pre: _lists_ok(kinds, syn, silence) and 0 <= maxtasks <= NT and _spart(syn)
     post: _
     """
     try:
@@ -160,11 +175,24 @@ def h_synack(kinds: List[int], maxtasks: int, syn: List[int], silence: List[int]
 
 def h_synack_twin(kinds: List[int], maxtasks: int, syn: List[int], silence: List[int]) -> bool:
     """
-    pre: _lists_ok(kinds, syn, silence) and 0 <= maxtasks <= NT
+    pre: _lists_ok(kinds, syn, silence) and 0 <= maxtasks <= NT and _spart(syn)
     post: _
     """
     try:
         return _protocol(kinds, maxtasks, syn, silence, NT, None, 'nack')
+    except Prune:
+        return True
+
+
+def h_unpicklable(pos: int, maxtasks: int, consumed: int) -> bool:
+    """
+    pre: 0 <= pos < 7 and 0 <= maxtasks <= NT and 0 <= consumed <= NT
+    post: _
+    """
+    pos = realize(pos)
+    kinds = [3 if (pos + 1) & (1 << j) else 0 for j in range(3)]      # every non-empty set of positions
+    try:
+        return _protocol(kinds, maxtasks, None, None, consumed, None, None)
     except Prune:
         return True
 
@@ -323,14 +351,14 @@ def _soft(kinds, catch, sigat, want):
     return True
 
 
-def _soft_part(kinds, catch):
-    # NPART is 1 or 8: the first task's outcome kind and whether tasks catch
-    return NPART == 1 or (kinds[0] == PART % 4 and catch == ((PART // 4) % 2 == 1))
+def _soft_part(kinds, catch, sigat):
+    # NPART is 1 or 6: the first task's outcome kind (unserialisable results are h_unpicklable's), whether tasks catch
+    return NPART == 1 or (kinds[0] == PART % 3 and catch == ((PART // 3) % 2 == 1))
 
 
 def h_soft(kinds: List[int], catch: bool, sigat: int) -> bool:
     """
-    pre: len(kinds) == NT - 1 and all(0 <= k <= 3 for k in kinds) and 1 <= sigat <= MAXPOINT and _soft_part(kinds, catch)
+    pre: len(kinds) == NT - 1 and all(0 <= k <= 3 for k in kinds) and 1 <= sigat <= MAXPOINT and _soft_part(kinds, catch, sigat)
     post: _
     """
     try:
@@ -341,7 +369,7 @@ def h_soft(kinds: List[int], catch: bool, sigat: int) -> bool:
 
 def h_soft_twin(kinds: List[int], catch: bool, sigat: int) -> bool:
     """
-    pre: len(kinds) == NT - 1 and all(0 <= k <= 3 for k in kinds) and 1 <= sigat <= MAXPOINT and _soft_part(kinds, catch)
+    pre: len(kinds) == NT - 1 and all(0 <= k <= 3 for k in kinds) and 1 <= sigat <= MAXPOINT and _soft_part(kinds, catch, sigat)
     post: _
     """
     try:
